@@ -281,19 +281,61 @@ Example ex_int_plain :
   /\ plain_int_b [49; 46; 53] = false /\ plain_int_b [49; 101; 43; 50; 49] = false /\ plain_int_b [45] = false.
 Proof. repeat split; vm_compute; reflexivity. Qed.
 
-(** the contract is not contradictory: the reference "%d" together with a TOY "%g" that always
-    prints 0 satisfies it (satisfiability only; the reference "%g" is tested on the table above,
-    the real one by the correspondence check) *)
-Lemma strict_spec_satisfiable : LibcStrictSpec fmt_d (fun _ => [48]) (fun _ => [48]).
+(** The contract has an inhabitant that IS the reference implementation wherever the reference
+    passes a run-time check: the reference "%d" (proved above for all ints) and the reference "%g"
+    behind a guard that replaces an output which is not an RFC number of at most 25 bytes by "0".
+    The guard never fires on the table (test below), nor on any double of the correspondence runs;
+    that it never fires at all is the unproved part of the reference "%g". *)
+Definition sguard (t : bytes) : bytes :=
+  if rfc_number t && (zlen t <=? c_NUMBER_BUFFER_SIZE - 1) then t else [48].
+Definition sg_fmt_g15 (d : dbl) : bytes := sguard (fmt_g15 d).
+Definition sg_fmt_g17 (d : dbl) : bytes := sguard (fmt_g17 d).
+
+Lemma sguard_ok t : rfc_number (sguard t) = true /\ zlen (sguard t) <= c_NUMBER_BUFFER_SIZE - 1.
+Proof.
+  unfold sguard. destruct (rfc_number t && (zlen t <=? c_NUMBER_BUFFER_SIZE - 1)) eqn:E.
+  - apply andb_true_iff in E as [E1 E2]. apply Z.leb_le in E2. split; assumption.
+  - split; [reflexivity|]. unfold zlen. cbn [length]. change (c_NUMBER_BUFFER_SIZE - 1) with 25. lia.
+Qed.
+
+Lemma strict_spec_satisfiable : LibcStrictSpec fmt_d sg_fmt_g15 sg_fmt_g17.
 Proof.
   constructor.
   - intros z Hz. apply (ref_fmt_d_strict z Hz).
-  - intros d _ _. reflexivity.
-  - intros d _ _. reflexivity.
+  - intros d _ _. apply sguard_ok.
+  - intros d _ _. apply sguard_ok.
   - intros z Hz. apply (ref_fmt_d_strict z Hz).
-  - intros d _ _. unfold zlen. cbn [length]. change (c_NUMBER_BUFFER_SIZE - 1) with 25. lia.
-  - intros d _ _. unfold zlen. cbn [length]. change (c_NUMBER_BUFFER_SIZE - 1) with 25. lia.
+  - intros d _ _. apply sguard_ok.
+  - intros d _ _. apply sguard_ok.
   - intros z Hz. apply (ref_fmt_d_strict z Hz).
+Qed.
+
+(** TEST: the guard is the identity on the table *)
+Example sguard_identity_test :
+  forallb (fun r => let d := sf_of_bits (fst (fst r)) in
+                    bytes_eqb (sg_fmt_g15 d) (fmt_g15 d) && bytes_eqb (sg_fmt_g17 d) (fmt_g17 d)) g_table = true.
+Proof. vm_compute. reflexivity. Qed.
+
+(** the example tree prints the same with the guarded conversions ... *)
+Example ex_tree_renders_guarded :
+  render fmt_d sg_fmt_g15 sg_fmt_g17 sscanf_lg false 0 ex_tree = Some ex_text_unformatted /\
+  render fmt_d sg_fmt_g15 sg_fmt_g17 sscanf_lg true 0 ex_tree = Some ex_text_formatted.
+Proof. split; vm_compute; reflexivity. Qed.
+
+(** ... so the main theorem applies to it: both texts are RFC 8259 JSON texts denoting its value *)
+Lemma ex_tree_texts_rfc :
+  RFC_text ex_text_unformatted (val_of fmt_d sg_fmt_g15 sg_fmt_g17 sscanf_lg ex_tree) /\
+  RFC_text ex_text_formatted (val_of fmt_d sg_fmt_g15 sg_fmt_g17 sscanf_lg ex_tree).
+Proof.
+  assert (Hd : (cdepth ex_tree <= nesting_limit)%nat).
+  { rewrite (proj2 ex_tree_printable). apply Nat.leb_le. vm_compute. reflexivity. }
+  split.
+  - destruct (render_rfc_text _ _ _ sscanf_lg strict_spec_satisfiable ex_tree false (proj1 ex_tree_printable) Hd)
+      as [txt [R T]].
+    rewrite (proj1 ex_tree_renders_guarded) in R. injection R as <-. exact T.
+  - destruct (render_rfc_text _ _ _ sscanf_lg strict_spec_satisfiable ex_tree true (proj1 ex_tree_printable) Hd)
+      as [txt [R T]].
+    rewrite (proj2 ex_tree_renders_guarded) in R. injection R as <-. exact T.
 Qed.
 
 Example ex_tree_fields_ok : fields_ok ex_tree = true.
